@@ -209,15 +209,19 @@ fn seed_bytes(k: u64) -> [u8; 32] {
 
 /// built-in heuristics (h < 3) or Rand with a seed on one ADF: all three entry points, native and hybrid objects
 pub fn builtin_case(text: &str, tts: &[TT], h: usize, seed: Option<u64>, st: &mut St) -> Vec<(String, String)> {
-    let n = tts.len();
+    builtin_case_o(text, &crate::mid::Oracle::from_tts(tts), h, seed, st)
+}
+
+pub fn builtin_case_o(text: &str, orc: &crate::mid::Oracle, h: usize, seed: Option<u64>, st: &mut St) -> Vec<(String, String)> {
+    let n = orc.n;
     let mut out = vec![];
     let parser = AdfParser::default();
     if guard(|| parser.parse()(text).is_ok()) != Ok(true) {
         out.push(("parse".into(), "well-formed input rejected".into()));
         return out;
     }
-    let want_s = stable(tts);
-    let want_2 = models2(tts);
+    let want_s = orc.stable.clone();
+    let want_2 = orc.two.clone();
     let (heu, hname) = builtin(h);
     let bd = guard(|| BdAdf::from_parser(&parser)).ok();
     for obj in 0..2 {
@@ -432,9 +436,16 @@ pub fn run_c05(run: &Run) {
                 }
                 let c = src.get(k);
                 st.adfs += 1;
+                let orc = match &c.formulas {
+                    Some(l) => crate::mid::Oracle::from_formulas(l),
+                    None => crate::mid::Oracle::from_tts(&c.tts),
+                };
                 for h in 0..3 {
-                    for (kind, msg) in builtin_case(&c.text, &c.tts, h, None, st) {
-                        run.violation(&kind, format!("{} on {}", msg, c.text), json!({"type": "builtin", "text": c.text, "tts": c.tts, "heuristic": h}));
+                    for (kind, msg) in builtin_case_o(&c.text, &orc, h, None, st) {
+                        let mut case = src.describe(k);
+                        case["type"] = json!("builtin");
+                        case["heuristic"] = json!(h);
+                        run.violation(&kind, format!("{} on {}", msg, c.text), case);
                     }
                 }
             },
@@ -550,6 +561,10 @@ pub fn replay(c: &Value) -> Vec<(String, String)> {
     let mut st = St::default();
     if c["type"] == "bounded" {
         return bounded_case(&text, &tts, c["cap"].as_u64().unwrap_or(0) as usize, c["twoval"].as_bool().unwrap_or(false));
+    }
+    if c["type"] == "builtin" && c.get("ring").is_some() {
+        let l = crate::mid::ring(c["ring"]["n"].as_u64().unwrap_or(6) as usize, c["ring"]["index"].as_u64().unwrap_or(0));
+        return builtin_case_o(&text, &crate::mid::Oracle::from_formulas(&l), c["heuristic"].as_u64().unwrap_or(0) as usize, c["seed"].as_u64(), &mut st);
     }
     if c["type"] == "builtin" {
         return builtin_case(&text, &tts, c["heuristic"].as_u64().unwrap_or(0) as usize, c["seed"].as_u64(), &mut st);
